@@ -228,6 +228,19 @@ func runConnUDP(t *testing.T, c caseDef) []string {
 						m.SetToken(message.Token{0x78, byte(mid)})
 					}
 					inject(m)
+				case "send":
+					// the application pushes a non-confirmable message (a notification, say) to the peer
+					at, _ := strconv.ParseInt(f[1], 10, 64)
+					sleepTo(start, at)
+					m := cc.AcquireMessage(context.Background())
+					m.SetCode(codes.Content)
+					m.SetType(message.NonConfirmable)
+					m.SetToken(message.Token{0x5e, byte(i)})
+					m.SetMessageID(cc.GetMessageID())
+					if err := cc.WriteMessage(m); err != nil {
+						log.add("send-error")
+					}
+					cc.ReleaseMessage(m)
 				case "recvslow":
 					at, _ := strconv.ParseInt(f[1], 10, 64)
 					d, _ := strconv.ParseInt(f[2], 10, 64)
@@ -401,6 +414,16 @@ func runConnTCP(t *testing.T, c caseDef) []string {
 					sleepTo(start, at)
 					n++
 					send(slowRequest(d, int32(n), false))
+				case "send":
+					at, _ := strconv.ParseInt(f[1], 10, 64)
+					sleepTo(start, at)
+					m := cc.AcquireMessage(context.Background())
+					m.SetCode(codes.Content)
+					m.SetToken(message.Token{0x5e, byte(i)})
+					if err := cc.WriteMessage(m); err != nil {
+						log.add("send-error")
+					}
+					cc.ReleaseMessage(m)
 				case "trickle":
 					// the peer sends the next byte(s) of ONE big frame that it never completes: bytes, but no message
 					at, _ := strconv.ParseInt(f[1], 10, 64)
@@ -484,7 +507,7 @@ func TestC18(t *testing.T) {
 			flush(w)
 			fmt.Fprintln(w, "end")
 		case cur != nil && (f[0] == "recv" && len(f) == 2 || f[0] == "pong" && len(f) == 3 || f[0] == "tick" && len(f) == 2 ||
-			f[0] == "tickf" && len(f) == 2 || f[0] == "recvk" && len(f) == 3 || f[0] == "trickle" && len(f) == 2 || f[0] == "recvslow" && len(f) == 3):
+			f[0] == "tickf" && len(f) == 2 || f[0] == "recvk" && len(f) == 3 || f[0] == "trickle" && len(f) == 2 || f[0] == "send" && len(f) == 2 || f[0] == "recvslow" && len(f) == 3):
 			cur.ops = append(cur.ops, f)
 		default:
 			flush(w)
